@@ -49,7 +49,8 @@ PARTIAL = [
     "for equal sigmas the true minimiser is the midpoint (so ook.theory_BER(mu,s,s) = Q(mu/2s) up to the grid error): needs convexity "
     "of Q, which QSpec does not contain; proved: value at the midpoint, symmetry of objective and grid, grid minimum >= infimum; "
     "oracle: |threshold - midpoint| <= half a grid step and value within the grid error of Q(mu/2s)",
-    "utils.theory_BER decreases monotonically with received power: oracle (1 dB steps, relative slack 1e-3 for the grid)",
+    "utils.theory_BER decreases monotonically with received power: oracle (1 dB steps, relative slack 1e-3 for the grid); "
+    "ppm soft decision non-increasing in mu: oracle (ook and ppm-hard grid minima are theorems)",
     "scipy.integrate.quad result is an input of the model (the integrand is compared point-wise); scipy.special.erfc is replaced at "
     "Float by a series/continued fraction compared with utils.Q to 1e-11 relative",
     "floating-point rounding: theorems over the reals; Float run agrees to 1e-9 relative (+1e-13 absolute where 1-(1-x) cancels)",
